@@ -22,7 +22,8 @@ use hvcommon::{Value, json, panic_message};
 use hydro_lang::live_collections::stream::{NoOrder, TotalOrder};
 use hydro_lang::sim::compiled::{verif_can_run, verif_run_hooks_logged};
 use hydro_lang::sim::runtime::{
-    KeyedSingletonHook, KeyedStreamHook, MergeOrderedHook, PassthroughSingletonHook, SimHook, SimInlineHook,
+    KeyedMergeOrderedHook, KeyedSingletonHook, KeyedStreamHook, KeyedStreamOrderHook, MergeOrderedHook,
+    PartiallyOrderedStreamHook, PassthroughSingletonHook, SimHook, SimInlineHook, TopLevelKeyedMergeOrderedHook,
     SingletonHook, StreamHook, StreamOrderHook, TopLevelFoldHook, TopLevelMergeOrderedHook,
     TopLevelKeyedStreamOrderHook, TopLevelPartiallyOrderedStreamHook, TopLevelStreamOrderHook,
 };
@@ -169,6 +170,8 @@ enum Obs {
     V(Q, Receiver<Vec<u32>>),
     /// two plain queues (top-level merge_ordered), items emitted one by one
     Q2(Q, Q, Receiver<u32>),
+    /// two keyed maps (top-level keyed merge_ordered): entries of the first, then of the second
+    M2(M, M, Receiver<(u32, u32)>),
 }
 
 struct Built {
@@ -311,6 +314,23 @@ fn build(h: &Value) -> Built {
             });
             Built { hook, obs: Obs::Q2(q1, q2, rx) }
         }
+        "top_kmerge" => {
+            let m1: M = Rc::new(RefCell::new(FxHashMap::default()));
+            let m2: M = Rc::new(RefCell::new(FxHashMap::default()));
+            let (tx, rx) = unbounded::<(u32, u32)>();
+            fill_map(&m1, &keyed(&h["m"]));
+            fill_map(&m2, &keyed(&h["m2"]));
+            let hook = Box::new(TopLevelKeyedMergeOrderedHook::<u32, u32> {
+                first: m1.clone(),
+                second: m2.clone(),
+                to_release: None,
+                release_source: None,
+                output: tx,
+                location: LOC,
+                format_item_debug: fmt_kv,
+            });
+            Built { hook, obs: Obs::M2(m1, m2, rx) }
+        }
         "top_keyed_order" | "top_partial" => {
             let m: M = Rc::new(RefCell::new(FxHashMap::default()));
             let (tx, rx) = unbounded::<(u32, u32)>();
@@ -393,13 +413,21 @@ fn snapshot(obs: &Obs) -> Value {
                 m.borrow().iter().map(|(k, q)| json!([k, q.iter().copied().collect::<Vec<u32>>()])).collect();
             Value::Array(v)
         }
+        Obs::M2(a, b, _) => {
+            #[allow(clippy::disallowed_methods)]
+            let mut v: Vec<Value> =
+                a.borrow().iter().map(|(k, q)| json!([k, q.iter().copied().collect::<Vec<u32>>()])).collect();
+            #[allow(clippy::disallowed_methods)]
+            v.extend(b.borrow().iter().map(|(k, q)| json!([k, q.iter().copied().collect::<Vec<u32>>()])));
+            Value::Array(v)
+        }
     }
 }
 
 fn emitted(obs: &mut Obs) -> Value {
     match obs {
         Obs::Q(_, rx) | Obs::Q2(_, _, rx) => Value::Array(drain(rx).into_iter().map(|v| json!([0, v])).collect()),
-        Obs::M(_, rx) => Value::Array(drain(rx).into_iter().map(|(k, v)| json!([k, v])).collect()),
+        Obs::M(_, rx) | Obs::M2(_, _, rx) => Value::Array(drain(rx).into_iter().map(|(k, v)| json!([k, v])).collect()),
         // one Vec per release: flattened, with the batch index as "key"
         Obs::V(_, rx) => Value::Array(
             drain(rx).into_iter().enumerate().flat_map(|(i, b)| b.into_iter().map(move |v| json!([i, v]))).collect(),
@@ -411,7 +439,7 @@ fn push(obs: &Obs, k: u32, v: u32) {
     match obs {
         Obs::Q(q, _) | Obs::V(q, _) => q.borrow_mut().push_back(v),
         Obs::Q2(a, b, _) => (if k == 0 { a } else { b }).borrow_mut().push_back(v),
-        Obs::M(m, _) => m.borrow_mut().entry(k).or_default().push_back(v),
+        Obs::M(m, _) | Obs::M2(m, _, _) => m.borrow_mut().entry(k).or_default().push_back(v),
     }
 }
 
@@ -501,6 +529,8 @@ fn run_hook(case: &Value) -> Value {
 fn run_inline(case: &Value) -> Value {
     let kind = case["kind"].as_str().unwrap();
     let (tx, mut rx) = unbounded::<Vec<u32>>();
+    let (ktx, mut krx) = unbounded::<Vec<(u32, u32)>>();
+    let mut group_order = Value::Null;
     let mut hook: Box<dyn SimInlineHook> = match kind {
         "shuffle" => {
             let input = Rc::new(RefCell::new(Some(u32s(&case["input"]))));
@@ -510,6 +540,29 @@ fn run_inline(case: &Value) -> Value {
             let a = Rc::new(RefCell::new(Some(u32s(&case["first"]))));
             let b = Rc::new(RefCell::new(Some(u32s(&case["second"]))));
             Box::new(MergeOrderedHook::<u32>::new(a, b, tx, LOC, fmt_u32))
+        }
+        "kshuffle" => {
+            let inp = pairs(&case["input"]);
+            // the hook groups its batch into an FxHashMap and decides per key in that map's
+            // iteration order: the same grouping built here has the same order (the oracle)
+            let mut g: FxHashMap<u32, Vec<u32>> = FxHashMap::default();
+            for (k, v) in &inp {
+                g.entry(*k).or_insert_with(Vec::new).push(*v);
+            }
+            #[allow(clippy::disallowed_methods)]
+            let order: Vec<u32> = g.keys().copied().collect();
+            group_order = json!(order);
+            let input = Rc::new(RefCell::new(Some(inp)));
+            Box::new(KeyedStreamOrderHook::<u32, u32>::new(input, ktx, LOC, fmt_u32, fmt_u32))
+        }
+        "partial" => {
+            let input = Rc::new(RefCell::new(Some(pairs(&case["input"]))));
+            Box::new(PartiallyOrderedStreamHook::<u32, u32>::new(input, ktx, LOC, fmt_u32, fmt_u32))
+        }
+        "kmerge" => {
+            let a = Rc::new(RefCell::new(Some(pairs(&case["first"]))));
+            let b = Rc::new(RefCell::new(Some(pairs(&case["second"]))));
+            Box::new(KeyedMergeOrderedHook::<u32, u32>::new(a, b, ktx, LOC, fmt_kv))
         }
         other => panic!("unknown inline hook kind {other}"),
     };
@@ -525,6 +578,7 @@ fn run_inline(case: &Value) -> Value {
         let bad = st.borrow().bad;
         let mut v = panic_value(e, bad);
         v["ds_used"] = json!(st.borrow().used);
+        v["group_order"] = group_order;
         return v;
     }
     let has1 = hook.has_decision();
@@ -534,9 +588,11 @@ fn run_inline(case: &Value) -> Value {
         return panic_value(e, false);
     }
     let out: Vec<Vec<u32>> = drain(&mut rx);
+    let kout: Vec<Vec<(u32, u32)>> = drain(&mut krx);
     json!({
         "pending0": pending0, "has0": has0, "has1": has1, "pending1": pending1, "has2": hook.has_decision(),
-        "out": out, "used": st.borrow().pos, "ds_used": st.borrow().used, "log": log,
+        "out": out, "kout": kout, "group_order": group_order,
+        "used": st.borrow().pos, "ds_used": st.borrow().used, "log": log,
     })
 }
 
